@@ -542,6 +542,29 @@ inline void consume(Ctx& c, const X& x) {
   }
 }
 
+// ---------------------------------------------------------------------------------- constant-initialised literal objects (C19)
+struct ClitHash { std::uint64_t h; long len; };
+template <class X>
+inline ClitHash hash_of(const X& x) {
+  Ctx c;
+  consume(c, x);
+  return ClitHash{c.h, c.result_len};
+}
+template <class T>
+inline T launder(T x) {
+  volatile T v = x;
+  return v;
+}
+struct ClitEntry {
+  const char* name;
+  ClitHash (*object)();   // hash of the namespace-scope object (initialised before main, or at compile time)
+  ClitHash (*runtime)();  // hash of the same expression on run-time operands
+};
+void clit_mark(char c, const char* name);
+void register_clits(const ClitEntry* entries, int count);
+struct ClitMark { ClitMark(char c, const char* name) { clit_mark(c, name); } };
+struct ClitRegistrar { ClitRegistrar(const ClitEntry* e, int n) { register_clits(e, n); } };
+
 // ---------------------------------------------------------------------------------- op registry
 using OpFn = void (*)(Ctx&, int);
 struct OpEntry {
